@@ -15,7 +15,7 @@
 #define NFILES 1
 #endif
 #define MAXEV 2
-#define MAXCALLS (NIN / 4 + 1)
+#define MAXCALLS (NFILES * (NIN / 3 + 1))
 #include "env.h"
 static unsigned vf_token_code(const char *s) { (void)s; return 0; }
 const char invalid[] = "__invalid__";
